@@ -49,9 +49,10 @@ IMPORTS = ("From Coq Require Import NArith ZArith List.\n"
 IMPORTS_MD5 = IMPORTS + "\nFrom DvcData Require Import Base.MD5."
 
 TEXT = frozenset(range(32, 127)) | {10, 13, 9, 12, 8}
-ALGS = ["md5", "sha1", "sha224", "sha256", "sha384", "sha512", "blake2b", "blake2s", "sha3_256",
-        "sha3_512", "sha512_256", "blake3", "md5-dos2unix"]
 D2U = "md5-dos2unix"
+# fixed-length digests this interpreter's hashlib offers (asked of hashlib itself, not of dvc_data)
+ALGS = [a for a in ["md5", "sha1", "sha224", "sha256", "sha384", "sha512", "blake2b", "blake2s", "sha3_256",
+                    "sha3_512", "sha512_256"] if a in hashlib.algorithms_available] + ["blake3", D2U]
 
 
 # ------------------------------------------------------------------------------------------
